@@ -330,6 +330,65 @@ func ruleR171(c *Ctx) {
 		c.Undecided("value/export.jsonExporter.String", token.NoPos, "not found")
 		return
 	}
+	// the escaping is delegated to a library: encoding/json produces a JSON string (with its quotes) for every Go
+	// string; the quoting functions of strconv and fmt's %q produce Go syntax, which is not JSON (\x.., \a, \v, \U........)
+	{
+		info := ep.TypesInfo
+		var strParam types.Object
+		if fd.Type.Params != nil {
+			for _, f := range fd.Type.Params.List {
+				for _, nm := range f.Names {
+					if b, ok := info.Defs[nm].Type().Underlying().(*types.Basic); ok && b.Kind() == types.String {
+						strParam = info.Defs[nm]
+					}
+				}
+			}
+		}
+		hasLoop := containsNode(fd.Body, func(x ast.Node) bool { _, ok := x.(*ast.RangeStmt); return ok }) || containsNode(fd.Body, func(x ast.Node) bool { _, ok := x.(*ast.ForStmt); return ok })
+		var lib *ast.CallExpr
+		libName := ""
+		inspectNoLit(fd.Body, func(x ast.Node) bool {
+			call, ok := x.(*ast.CallExpr)
+			if !ok || lib != nil {
+				return true
+			}
+			cal := Callee(info, call)
+			if cal == nil || cal.Pkg() == nil {
+				return true
+			}
+			mentionsStr := false
+			for _, a := range call.Args {
+				if mentions(info, a, strParam) {
+					mentionsStr = true
+				}
+			}
+			if !mentionsStr {
+				return true
+			}
+			full := cal.Pkg().Path() + "." + cal.Name()
+			switch full {
+			case "encoding/json.Marshal", "strconv.Quote", "strconv.QuoteToASCII", "strconv.QuoteToGraphic", "strconv.AppendQuote", "strconv.AppendQuoteToASCII":
+				lib, libName = call, full
+			case "fmt.Sprintf", "fmt.Fprintf", "fmt.Appendf":
+				for _, a := range call.Args {
+					if tv := info.Types[a]; tv.Value != nil && tv.Value.Kind() == constant.String && strings.Contains(constant.StringVal(tv.Value), "%q") {
+						lib, libName = call, "fmt %q"
+					}
+				}
+			}
+			return true
+		})
+		if lib != nil && !hasLoop {
+			key := "value/export.jsonExporter.String#escaper"
+			if libName == "encoding/json.Marshal" {
+				c.OK(key, lib.Pos(), "the string is encoded by encoding/json.Marshal, which yields a quoted JSON string for every Go string")
+				c.OK("value/export.jsonExporter.String#quotes", lib.Pos(), "the quotes are part of the output of encoding/json.Marshal")
+			} else {
+				c.Violation(key, lib.Pos(), "the JSON string is produced by %s, which writes Go syntax, not JSON: control characters become \\x.. / \\a / \\v, code points above U+FFFF \\U........ - a JSON parser rejects these", libName)
+			}
+			return
+		}
+	}
 	valid := func(r rune, s escSink) string {
 		switch s.kind {
 		case "raw":
@@ -1043,5 +1102,158 @@ func ruleR174(c *Ctx) {
 		c.OK(key, addCall.Pos(), "keys are collected by append while iterating: every exported key is a key of the map (Get finds it by R13.1)")
 	default:
 		c.OK(key, addCall.Pos(), "the key list is sized by Size() and the lookup result is not tested: exact only because Size, Iter and Get of every map storage agree (R13.1, checked with this property)")
+	}
+}
+
+// ---------------------------------------------------------------------------
+// R17.5 nothing that is handed back to a sync.Pool is returned.
+//
+// pool.Put(x) gives x to whoever calls Get next. A result that still refers
+// to x's memory (x.Bytes(), x itself, a field of x) is overwritten by the next
+// user: an exported document that the caller holds changes when the next
+// export starts. Results derived from a pooled object have to be copied
+// (string(...), bytes.Clone, slices.Clone, append to a nil slice). The pinned
+// tree uses no sync.Pool; the rule is armed for the day an exporter does.
+
+func ruleR175(c *Ctx) {
+	n := 0
+	for _, pkg := range c.RepoPkgs {
+		if strings.Contains(pkg.PkgPath, "/example") || strings.HasSuffix(pkg.PkgPath, "/gen") {
+			continue
+		}
+		info := pkg.TypesInfo
+		forEachFuncBody([]*packages.Package{pkg}, func(pkg *packages.Package, fn ast.Node, body *ast.BlockStmt) {
+			k := 0
+			ast.Inspect(body, func(x ast.Node) bool {
+				call, ok := x.(*ast.CallExpr)
+				if !ok || len(call.Args) != 1 {
+					return true
+				}
+				cal := Callee(info, call)
+				if cal == nil || cal.Pkg() == nil || cal.Pkg().Path() != "sync" || cal.Name() != "Put" {
+					return true
+				}
+				n++
+				k++
+				key := fmt.Sprintf("%s#pool.Put[%d]:%s", c.FuncName(fn)+litSuffix(c, fn), k, nodeStr(c.Fset, call.Args[0]))
+				pooled := nodeStr(c.Fset, ast.Unparen(call.Args[0]))
+				var bad ast.Expr
+				inspectNoLit(body, func(y ast.Node) bool {
+					r, ok := y.(*ast.ReturnStmt)
+					if !ok || bad != nil {
+						return true
+					}
+					for _, res := range r.Results {
+						e := ast.Unparen(res)
+						// copies
+						if cc, ok := e.(*ast.CallExpr); ok {
+							if tv, ok := info.Types[cc.Fun]; ok && tv.IsType() {
+								if b, ok := tv.Type.Underlying().(*types.Basic); ok && b.Info()&types.IsString != 0 {
+									continue // string(x.Bytes()) copies
+								}
+							}
+							if cl := Callee(info, cc); cl != nil && cl.Pkg() != nil && (cl.Pkg().Path() == "bytes" || cl.Pkg().Path() == "slices") && cl.Name() == "Clone" {
+								continue
+							}
+							if cl := Callee(info, cc); cl != nil && cl.Name() == "String" {
+								continue // a string is immutable and copied out of the buffer
+							}
+							if id, ok := ast.Unparen(cc.Fun).(*ast.Ident); ok && id.Name == "append" && len(cc.Args) >= 1 {
+								if a0, ok := ast.Unparen(cc.Args[0]).(*ast.CallExpr); ok {
+									if tv, ok := info.Types[a0.Fun]; ok && tv.IsType() {
+										continue // append([]byte(nil), ...)
+									}
+								}
+							}
+						}
+						if containsNodeDeep(e, func(z ast.Node) bool {
+							ze, ok := z.(ast.Expr)
+							return ok && nodeStr(c.Fset, ast.Unparen(ze)) == pooled
+						}) {
+							// only reference types keep the memory alive
+							switch info.TypeOf(e).Underlying().(type) {
+							case *types.Slice, *types.Pointer, *types.Map, *types.Interface:
+								bad = e
+							}
+						}
+					}
+					return true
+				})
+				if bad != nil {
+					c.Violation(key, bad.Pos(), "the function hands %s back to the sync.Pool and returns %s, which still refers to its memory: the next user of the pooled object overwrites what the caller holds (an exported document changes or becomes unparsable when the next export starts)", pooled, nodeStr(c.Fset, bad))
+				} else {
+					c.OK(key, call.Pos(), "no result of the function refers to the pooled object")
+				}
+				return true
+			})
+		})
+	}
+	if n == 0 {
+		c.Note("repo#sync.Pool", token.NoPos, "sync.Pool is not used")
+	}
+}
+
+// ---------------------------------------------------------------------------
+// R17.6 the JSON exporter leaves the scalars of the language to the traversal.
+//
+// The generic traversal (Export) writes a scalar as the JSON string of its
+// ToString form; that is what C17 compares the decoded document with. The
+// Custom hook of an exporter exists for host types. If the JSON exporter's
+// Custom takes over one of the scalar types of the value package (Int, Float,
+// String, Bool) the document carries another text for it than ToString (a
+// float formatted with another verb, a bare number), and export and value
+// disagree.
+
+func ruleR176(c *Ctx) {
+	ep := c.Pkg("value/export")
+	if ep == nil {
+		c.Undecided("package value/export", token.NoPos, "not found")
+		return
+	}
+	info := ep.TypesInfo
+	fd := c.FuncDecl(ep, "jsonExporter", "Custom")
+	key := "value/export.jsonExporter.Custom#scalars"
+	if fd == nil {
+		c.Undecided(key, token.NoPos, "jsonExporter.Custom not found")
+		return
+	}
+	scalar := func(t types.Type) string {
+		for _, nmn := range []string{"Int", "Float", "String", "Bool"} {
+			if isNamed(t, modPath+"/value", nmn) {
+				if _, isPtr := t.(*types.Pointer); !isPtr {
+					return nmn
+				}
+			}
+		}
+		return ""
+	}
+	var hit ast.Node
+	name := ""
+	ast.Inspect(fd.Body, func(x ast.Node) bool {
+		if hit != nil {
+			return false
+		}
+		switch t := x.(type) {
+		case *ast.TypeAssertExpr:
+			if t.Type != nil {
+				if s := scalar(info.TypeOf(t.Type)); s != "" {
+					hit, name = t, s
+				}
+			}
+		case *ast.CaseClause:
+			for _, e := range t.List {
+				if tv, ok := info.Types[e]; ok && tv.IsType() {
+					if s := scalar(tv.Type); s != "" {
+						hit, name = e, s
+					}
+				}
+			}
+		}
+		return true
+	})
+	if hit != nil {
+		c.Violation(key, hit.Pos(), "the Custom hook of the JSON exporter handles the scalar type value.%s itself: the document carries the text this code produces instead of the ToString form that the generic traversal writes for every scalar, so the decoded document and the value disagree (e.g. 1.234567e+06 exported as 1234567)", name)
+	} else {
+		c.OK(key, fd.Pos(), "the Custom hook of the JSON exporter does not take over a scalar type of the value package")
 	}
 }
